@@ -451,6 +451,84 @@ def style_job(job):
     return trace
 
 
+def fixture_style_job(job):
+    """a LOADED document: the Style object of one styled cell is edited in place (one cell-level or one text-level attribute), the
+    document is saved, read again, saved again; a second styled cell is the bystander.  Events for Trace_Styles ("default" = the style
+    the cell came with)."""
+    (idx, path, scratch) = job
+    warnings.simplefilter("ignore")
+    from numbers_parser import Document
+    out = []
+    try:
+        doc0 = Document(path)
+        cands = []
+        for si, sh in enumerate(doc0.sheets):
+            for ti, tb in enumerate(sh.tables):
+                if tb.num_rows * tb.num_cols > 3000:
+                    continue
+                for r, row in enumerate(tb.rows()):
+                    for c, cell in enumerate(row):
+                        try:
+                            st = cell.style
+                        except Exception:  # noqa: BLE001
+                            continue
+                        if st is None or type(cell).__name__ == "MergedCell":
+                            continue
+                        rank = 0 if st.bg_image is not None else 1 if st.bg_color is not None else 2 if cell.value is not None else 3
+                        cands.append((rank, si, ti, r, c))
+        cands.sort()
+        by_table = {}
+        for x in cands:
+            by_table.setdefault((x[1], x[2]), []).append(x)
+        jobs = [v[:2] for v in by_table.values() if len(v) >= 2][:3]
+    except Exception:  # noqa: BLE001
+        return []
+    for k, ((_, si, ti, r1, c1), (_, _, _, r2, c2)) in enumerate(jobs):
+        pos = {"c1": (r1, c1), "c2": (r2, c2)}
+        try:
+            base = {c: style_tuple(doc0.sheets[si].tables[ti].cell(*pos[c]).style) for c in pos}
+            doc = Document(path)
+            tb = doc.sheets[si].tables[ti]
+            st = tb.cell(*pos["c1"]).style
+            attr = ["text_inset", "bold", "text_wrap", "font_size"][(idx + k) % 4]
+            new = {"text_inset": (st.text_inset or 0.0) + 1.0, "bold": not st.bold, "text_wrap": not st.text_wrap, "font_size": (st.font_size or 10.0) + 1.0}[attr]
+            setattr(st, attr, new)
+            wantA = list(base["c1"])
+            wantA[ATTRS.index(attr)] = round(new, 4) if isinstance(new, float) else new
+            want = {"A": tuple(wantA)}
+        except Exception:  # noqa: BLE001
+            continue
+
+        def token(d, c):
+            tup = style_tuple(d.sheets[si].tables[ti].cell(*pos[c]).style)
+            if tup == want["A"]:
+                return "A"
+            if tup == base[c]:
+                return "default"
+            return "?:" + json.dumps(tup)[:200]
+        trace = {"ev": [{"op": "edit", "c": "c1", "a": "A"}], "meta": {"fixture": os.path.basename(path), "table": [si, ti], "cells": pos, "attr": attr, "ops": "fixture-edit", "twin": None}}
+        p2 = os.path.join(scratch, "fst-%d-%d-%d.numbers" % (os.getpid(), idx, k))
+        for step in ("save", "read", "save"):
+            e = {"op": step}
+            try:
+                if step == "read":
+                    e["c"] = "c1"
+                    e["seen"] = token(doc, "c1")
+                else:
+                    e["exc"] = ""
+                    doc.save(p2)
+                    d2 = Document(p2)
+                    e["re"] = {c: token(d2, c) for c in pos}
+            except Exception as ex:  # noqa: BLE001
+                e["exc"] = "%s:%s" % (type(ex).__name__, str(ex)[:80])
+                e["re"] = {c: "EXC" for c in pos}
+            trace["ev"].append(e)
+        if os.path.exists(p2):
+            os.remove(p2)
+        out.append(trace)
+    return out
+
+
 def TB_CFG(n):
     return 'CONSTANTS N = %d\nValues = {"a", "b", "old"}\nMaxStrokes = 99\nBug = "none"\nSPECIFICATION TSpec\nINVARIANT Done\nCHECK_DEADLOCK FALSE\n' % n
 
@@ -653,6 +731,26 @@ def run(ctx):
                  "style history %s%s: rejected at event %d (%s): %s" % (json.dumps(t["meta"]["ops"])[:500], " (styles differ in %s only)" % t["meta"]["twin"] if t["meta"]["twin"] else "", line, clause, json.dumps({k: v for k, v in ev.items()})[:400]), t["meta"])
     tracecheck.validate(ctx, "Trace_Styles", TS_CFG,
                         strs, "styles", srej, batch=400, payload=lambda t: {"ev": t["ev"]})
+    # styles that came with a document, edited in place (Level B: see fsrej)
+    ctx.stage("fixture-styles")
+    sfx = fixtures.readable_fixtures(ctx.workers)
+    if q:
+        sfx = [p for p in sfx if any(k in os.path.basename(p).lower() for k in ("style", "bgcolour", "issue-85", "test-1.", "test-formats"))] or sfx[:6]
+    fstr = [t for lst in fixtures.pmap(fixture_style_job, [(i, p, ctx.scratch) for i, p in enumerate(sfx)], ctx.workers, chunksize=1) for t in lst]
+    ctx.evaluations += len(fstr)
+    for t in fstr:
+        ctx.distinct.add(("fxs", t["meta"]["fixture"], json.dumps(t["meta"]["table"]), json.dumps(t["meta"]["cells"]), t["meta"]["attr"]))
+    ctx.extra["fixture_style_edits"] = len(fstr)
+
+    def fsrej(t, line, op, clause):
+        ev = t["ev"][line - 1]
+        # Level B only: C15 speaks of styles that are CREATED AND APPLIED; assigning to an attribute of the Style object a loaded cell
+        # hands out is another route (text-level attributes assigned that way are not saved at all on the pinned tree), so a
+        # difference here is reported as DRIFT, never as a violation
+        ctx.drifted("%s table %s: %s of the style of cell %s assigned in place: %s at event %d: %s" % (
+            t["meta"]["fixture"], t["meta"]["table"], t["meta"]["attr"], t["meta"]["cells"]["c1"], clause, line, json.dumps(ev)[:300]))
+    if fstr:
+        tracecheck.validate(ctx, "Trace_Styles", TS_CFG, fstr, "fixture-styles", fsrej, batch=400, payload=lambda t: {"ev": t["ev"]})
     ctx.stage("selftest")
     import copy
     g = copy.deepcopy(next(t for t in btr if len(t["ev"]) >= 2))
